@@ -64,7 +64,16 @@ func observePages(pages []*bo.PageBox, flowRoots, hiddenIDs map[string]bool) *ob
 		var walk func(b bo.Box, flow, owner string, hidden, margin bool)
 		walk = func(b bo.Box, flow, owner string, hidden, margin bool) {
 			f := b.Box()
-			if f.PseudoType == "" {
+			if f.PseudoType != "" {
+				// a pseudo-element box belongs to its element wherever it sits in the tree (the
+				// remainder of a marker split at a page bottom is a child of the root box)
+				if id := elemID(f); id != "" {
+					owner = id
+					if hiddenIDs[id] {
+						hidden = true
+					}
+				}
+			} else {
 				if id := elemID(f); id != "" {
 					if id != owner {
 						ps := od.elemPages[id]
